@@ -3,9 +3,9 @@
     Definitions only.
 
     INTERFACE ASSUMPTION about the array library (properties C01/C02, proved
-    elsewhere): [Slice(loc, dims, step)], [MustReshape] of a contiguous wview,
+    elsewhere): [Slice(loc, dims, step)], [MustReshape] of a contiguous view,
     [Get1], [Set1], [Set] and [ApplySlice] address the row-major flat offsets of
-    the root buffer that their arguments denote.  A wview is therefore modelled
+    the root buffer that their arguments denote.  A view (record [wview]) is therefore modelled
     as the affine map (start, stride per axis, extents) of the Go struct
     (Start / OffsetStep / Dims) and denotes the list [voffsets] of flat
     offsets in row-major order.
@@ -64,17 +64,17 @@ Fixpoint set_idx (l : list nat) (j : nat) (x : nat) : list nat :=
   | y :: r, S j' => y :: set_idx r j' x
   end.
 
-(** A wview: Start, OffsetStep, Dims of the Go struct. *)
+(** A view: Start, OffsetStep, Dims of the Go struct. *)
 Record wview := { wstart : nat; wstr : list nat; wdims : list nat }.
 Definition whole (dims : list nat) : wview :=
   {| wstart := 0; wstr := strides dims; wdims := dims |}.
-(** [SliceInto]. [size] may be shorter than the rank of the wview (the table
+(** [SliceInto]. [size] may be shorter than the rank of the view (the table
     parameter slices of the template are): [dot] then uses the leading strides. *)
 Definition vslice (v : wview) (loc size : list nat) (step : option (list nat)) : wview :=
   {| wstart := wstart v + dot loc (wstr v);
      wstr := match step with None => wstr v | Some st => vmul (wstr v) st end;
      wdims := size |}.
-(** The flat offsets a wview denotes, row-major. *)
+(** The flat offsets a view denotes, row-major. *)
 Definition voffsets (v : wview) : list nat :=
   map (fun ix => wstart v + dot ix (wstr v)) (indices (wdims v)).
 Fixpoint list_nat_eqb (a b : list nat) : bool :=
@@ -83,11 +83,11 @@ Fixpoint list_nat_eqb (a b : list nat) : bool :=
   | x :: a', y :: b' => Nat.eqb x y && list_nat_eqb a' b'
   | _, _ => false
   end.
-(** The wview's elements are consecutive in memory. *)
+(** The view's elements are consecutive in memory. *)
 Definition contiguous (v : wview) : bool :=
   list_nat_eqb (voffsets v) (seq (wstart v) (lprod (wdims v))).
 (** [MustReshape] as a live alias: [None] when the sizes differ (panic) or when
-    the wview is not contiguous (the Go code then returns a detached COPY, which
+    the view is not contiguous (the Go code then returns a detached COPY, which
     the wrapper never relies on: lemma [*_view_ok] in RunProofs show that every
     reshape of the template is of a contiguous wview). *)
 Definition reshape (v : wview) (newshape : list nat) : option wview :=
@@ -129,7 +129,7 @@ Definition param_shape (maxd : denv) (nSets : nat) (p : pspec) : list nat :=
   | _ => [nSets]
   end.
 
-(** One wview per parameter: [parameters.Slice({paramIdx,0},{paramSize,nSets},nil).MustReshape(newShape)],
+(** One view per parameter: [parameters.Slice({paramIdx,0},{paramSize,nSets},nil).MustReshape(newShape)],
     [paramIdx] running. *)
 Fixpoint apply_params_from (maxd : denv) (dP : list nat) (nSets paramIdx : nat) (ps : list pspec)
   : option (list wview) :=
@@ -318,13 +318,8 @@ Section Run.
     | Custom => wr_list sh BS (voffsets (packed_state_view sh i (length st'))) st'
     end).
 
-  (** The body of [go func(i int){...}(j)]. *)
-  Definition cell_prog (sh : shapes) (pviews : list wview) (i : nat) : prog unit :=
-    let sv := prologue sh in
-    match gomod i (numInputSequences sv) with
-    | None => Fail
-    | Some ci =>
-      bind (read_params sh i (s_params sp) pviews []) (fun cp =>
+  (** The body of [go func(i int){...}(j)], after the parameters have been read. *)
+  Definition cell_body (sh : shapes) (sv : shared) (i ci : nat) (cp : cellparams) : prog unit :=
       bind (match s_states sp with
             | Fixed 0 => Ret []
             | Fixed k => with_view (state_view sh sv i) (fun iv => rd_list sh BS (map (get1_off iv) (seq 0 k)))
@@ -337,7 +332,14 @@ Section Run.
       match K cp st ins oldouts with
       | None => Fail
       | Some (outs, st') => cell_writeback sh sv ovs i outs st'
-      end))))))
+      end))))).
+
+  (** The body of [go func(i int){...}(j)]. *)
+  Definition cell_prog (sh : shapes) (pviews : list wview) (i : nat) : prog unit :=
+    let sv := prologue sh in
+    match gomod i (numInputSequences sv) with
+    | None => Fail
+    | Some ci => bind (read_params sh i (s_params sp) pviews []) (cell_body sh sv i ci)
     end.
 
   (** Functional run of one cell / of the cells in a given order. *)
@@ -378,8 +380,8 @@ Section Run.
 
   (* ---------------------------------------------------------------- *)
   (** * FindDimensions *)
-  (** [Maximum()] of a wview: starts from element [0,..,0] (read even when the
-      wview is empty), then scans all elements with [v > res]. *)
+  (** [Maximum()] of a view: starts from element [0,..,0] (read even when the
+      view is empty), then scans all elements with [v > res]. *)
   Definition maximum (first : V) (vals : list V) : V :=
     fold_left (fun res v => if gtb v res then v else res) vals first.
   Definition pget (sh : shapes) (m : mem) (off : nat) : option V :=
